@@ -196,6 +196,14 @@ fn c15() -> Property {
                 cases_per_seed: 1,
                 note: "real listener <-> scripted hostile peer, plus a healthy real pair in the same run",
             },
+            Variant {
+                name: "hostile-sasl-client-vs-listener",
+                weight: 1,
+                make: || Box::pin(scen::c19::run_scripted_client()),
+                max_steps: 3_000_000,
+                cases_per_seed: 1,
+                note: "C19's scripted SASL client (17 deviations incl. garbled client-final messages) against a PLAIN / SCRAM listener: the accept task must not panic or hang",
+            },
         ],
         quick_runs: 12_000,
         thorough_runs: 600_000,
